@@ -439,3 +439,37 @@ pub fn unhex(s: &str) -> Vec<u8> {
         .map(|i| u8::from_str_radix(&s[2 * i..2 * i + 2], 16).unwrap_or(0))
         .collect()
 }
+
+/// Condense a (possibly multi-page binrw) error message into one line.
+pub fn short_err(e: &str) -> String {
+    let strip = |l: &str| -> String {
+        let mut out = String::new();
+        let mut esc = false;
+        for c in l.chars() {
+            if esc {
+                if c == 'm' {
+                    esc = false;
+                }
+            } else if c == '\u{1b}' {
+                esc = true;
+            } else {
+                out.push(c);
+            }
+        }
+        out.trim().to_string()
+    };
+    if e.contains("Backtrace") || e.contains("While parsing") {
+        let parts: Vec<String> = e
+            .lines()
+            .map(strip)
+            .filter(|l| l.contains("Error:") || l.contains("While parsing field"))
+            .map(|l| l.trim_start_matches(|c: char| c.is_ascii_digit() || c == ':' || c == ' ').to_string())
+            .collect();
+        if !parts.is_empty() {
+            let j = parts.join("; ");
+            return j.chars().take(400).collect();
+        }
+    }
+    let first = e.lines().map(strip).find(|l| !l.is_empty()).unwrap_or_default();
+    first.chars().take(300).collect()
+}
